@@ -228,6 +228,12 @@ func runC12(t testing.TB, c C12Case) (key, what string, classes map[string]int) 
 	if _, ok := s.WaitLine(Wait, from, "Shell is gone"); !ok {
 		return "HARNESS", "the shell did not go away after its client disconnected", classes
 	}
+	// Both transport connections of the ended shell are closed now (the side
+	// that did not end first may be a client that merely lingers; the server's
+	// graceful stop waits for such a connection, which is outside "the shell
+	// has ended").
+	ic.Close()
+	oc.Close()
 	select {
 	case err := <-s.SrvErr:
 		s.SrvErr <- err
